@@ -14,7 +14,7 @@
 typedef struct { myth_mutex_t m; _Atomic int occ; } hmx_t;
 typedef struct { myth_cond_t c; volatile long sigs; volatile long nwaiting; int loose; /* signalled outside the mutex too: generation rule not applicable */ } hcv_t;
 
-static _Atomic long g_waits, g_signals, g_broadcasts, g_signal_outside, g_sig_nowaiter, g_waits_resumed_elsewhere;
+static _Atomic long g_waits, g_signals, g_broadcasts, g_signal_outside, g_signal_spurious, g_sig_nowaiter, g_waits_resumed_elsewhere;
 
 static inline void enter(hmx_t * x) {
   int o = atomic_fetch_add(&x->occ, 1);
@@ -80,6 +80,8 @@ static void * bb_producer(void * a_) {
   int i;
   for (i = 0; i < bb.per; i++) {
     long id = (long)a->idx * bb.per + i;
+    /* a signal that changes nothing, without the mutex: legal at any instant of anybody's wait */
+    if (bb.outside && hk_below(&r, 3) == 0) { myth_cond_signal(hk_below(&r, 2) ? &bb.not_empty.c : &bb.not_full.c); atomic_fetch_add(&g_signal_spurious, 1); }
     L(&bb.x);
     while (bb.count == bb.cap) W(&bb.not_full, &bb.x);
     bb.buf[bb.tail] = id; bb.tail = (bb.tail + 1) % bb.cap; bb.count++;
@@ -94,6 +96,7 @@ static void * bb_consumer(void * a_) {
   hk_rng_t r; hk_rng_seed(&r, a->rseed, 2);
   long n = (long)(intptr_t)a->user, i;
   for (i = 0; i < n; i++) {
+    if (bb.outside && hk_below(&r, 3) == 0) { myth_cond_signal(hk_below(&r, 2) ? &bb.not_empty.c : &bb.not_full.c); atomic_fetch_add(&g_signal_spurious, 1); }
     L(&bb.x);
     while (bb.count == 0) W(&bb.not_empty, &bb.x);
     long id = bb.buf[bb.head]; bb.head = (bb.head + 1) % bb.cap; bb.count--;
@@ -354,6 +357,7 @@ int main(int argc, char ** argv) {
   hk_report("signals", atomic_load(&g_signals));
   hk_report("broadcasts", atomic_load(&g_broadcasts));
   hk_report("signals_issued_after_unlock", atomic_load(&g_signal_outside));
+  hk_report("signals_without_mutex_and_without_state_change", atomic_load(&g_signal_spurious));
   hk_report("signals_with_no_waiter", atomic_load(&g_sig_nowaiter));
   hk_report("waits_resumed_on_other_worker", atomic_load(&g_waits_resumed_elsewhere));
   hk_report("workers", myth_get_num_workers());
